@@ -13,7 +13,7 @@ single writer. The wait is only a bound on when to stop looking: while waiting, 
 a second (otherwise the case is inconclusive, not a violation), and a disagreement is reported only if it is still there at the
 end of the wait *and* on a second look a second later.
 """
-import os, sys, time, re
+import os, sys, time, re, json
 sys.path.insert(0, os.path.dirname(os.path.abspath(__file__)))
 from lib import *  # noqa
 from persist import apply_cmd, wire, read_state, show  # noqa
@@ -192,6 +192,102 @@ def run_case(rep, args, case, rng):
         release_ports()
 
 
+def peer_leg(rep, args):
+    """This check plays a gossip peer against ONE real server-persistent process: length-prefixed GossipMessage frames produced by
+    the repository's own serializer (vh gossip-frames) are written to the server's gossip port in chosen fragments - whole, cut
+    1..8 bytes before the end, cut inside the 4-byte length prefix, byte by byte, two frames in one write, a frame plus the
+    first bytes of the next. Every update must then be served on the Redis port (the listener applies a frame when it has it;
+    the bound of 3 s only ends the wait), however its bytes were grouped."""
+    import subprocess
+    vh = os.path.join(target_dir(), "release", "vh")
+    nfr = 70 if args.thorough() else 42
+    p = subprocess.run([vh, "gossip-frames", "--n", str(nfr)], stdout=subprocess.PIPE, stderr=subprocess.PIPE, timeout=120)
+    if p.returncode != 0:
+        rep.inconclusive("gossip-frames failed: %r" % p.stderr[-200:])
+        return
+    frames = json.loads(p.stdout.decode())
+    base = os.path.join(target_dir(), "e2e", "peer.%d.%d" % (args.shard, os.getpid()))
+    os.makedirs(base, exist_ok=True)
+    port = alloc_ports(args.shard, 3)
+    env = dict(REDIS_PORT=str(port), REDIS_STORE_TYPE="memory", REPLICATION_ENABLED="true", REPLICA_ID="1", GOSSIP_PORT=str(port + 2),
+               REPLICATION_PEERS="127.0.0.1:1", GOSSIP_INTERVAL_MS="1000", RUST_LOG="warn")
+    srv = Server(bin_path("server-persistent"), env, port, log_path=os.path.join(base, "n.log"))
+    try:
+        if not (srv.wait_ready(30.0) and port_accepts(port + 2)):
+            rep.inconclusive("server did not come up")
+            return
+        rcl = Client(port, timeout=10.0)
+        rng = args.rng(7)
+        g = socket.create_connection(("127.0.0.1", port + 2), timeout=10.0)
+        g.setsockopt(socket.IPPROTO_TCP, socket.TCP_NODELAY, 1)
+        i = 0
+        turn = 0
+        while i < len(frames):
+            fr = frames[i]
+            data = bytes.fromhex(fr["hex"])
+            mode = ["whole", "tail-1", "tail-2", "tail-3", "tail-4", "tail-5", "tail-8", "prefix-2", "bytewise", "two-in-one", "one-and-a-bit", "mid"][turn % 12]
+            turn += 1
+            expect = [fr]
+            try:
+                if mode == "whole":
+                    g.sendall(data)
+                elif mode.startswith("tail-"):
+                    k = int(mode[5:])
+                    g.sendall(data[:-k]); time.sleep(0.03); g.sendall(data[-k:])
+                elif mode == "prefix-2":
+                    g.sendall(data[:2]); time.sleep(0.03); g.sendall(data[2:])
+                elif mode == "mid":
+                    h = len(data) // 2
+                    g.sendall(data[:h]); time.sleep(0.03); g.sendall(data[h:])
+                elif mode == "bytewise":
+                    for b in range(min(len(data), 400)):
+                        g.sendall(data[b:b + 1])
+                    g.sendall(data[400:])
+                elif mode == "two-in-one" and i + 1 < len(frames):
+                    d2 = bytes.fromhex(frames[i + 1]["hex"])
+                    g.sendall(data + d2)
+                    expect.append(frames[i + 1]); i += 1
+                elif mode == "one-and-a-bit" and i + 1 < len(frames):
+                    d2 = bytes.fromhex(frames[i + 1]["hex"])
+                    g.sendall(data + d2[:3]); time.sleep(0.03); g.sendall(d2[3:])
+                    expect.append(frames[i + 1]); i += 1
+                else:
+                    g.sendall(data)
+            except OSError as e:
+                # the server closed the gossip connection: what was sent before must already have been judged; reconnect
+                rep.count("gossip_connection_reset_by_server")
+                g = socket.create_connection(("127.0.0.1", port + 2), timeout=10.0)
+            rep.count("frames:" + mode)
+            rep.distinct((mode, len(data) > 1500, len(data) > 65536))
+            for e in expect:
+                rep.d["evaluations"] += 1
+                ok = False
+                t0 = time.time()
+                while time.time() - t0 < 3.0:
+                    if rcl.cmd("GET", e["key"]) == ("$", e["value"].encode()):
+                        ok = True
+                        break
+                    time.sleep(0.01)
+                if not ok:
+                    alive = srv.alive() and rcl.cmd("PING") == ("+", b"PONG")
+                    if not alive:
+                        rep.violation("C14|e2e-gossip-peer|server-died|%s" % mode, "after a gossip frame sent as '%s' the server is gone or silent" % mode, dict(mode=mode, frame=i, size=len(data)))
+                        return
+                    rep.violation("C14|e2e-gossip-peer|update-not-applied|%s|%s" % (mode, "large" if len(data) > 1500 else "small"),
+                                  "key %s of a %d-byte gossip frame sent as '%s' is not served 3 s later (GET -> %r) although the server answers" % (e["key"], len(data), mode, rcl.cmd("GET", e["key"])),
+                                  dict(mode=mode, frame=i, size=len(data)))
+                    # the connection's handler may be gone: continue on a fresh connection so that later modes are still judged
+                    try:
+                        g.close()
+                    except OSError:
+                        pass
+                    g = socket.create_connection(("127.0.0.1", port + 2), timeout=10.0)
+            i += 1
+    finally:
+        srv.kill9()
+        release_ports()
+
+
 def main():
     leg = sys.argv[1]
     args = Args(sys.argv[2:])
@@ -199,6 +295,17 @@ def main():
     rep.note("2-3 real server-persistent processes (release, no hooks) gossiping over loopback TCP, 20 ms gossip interval")
     if not os.path.exists(bin_path("server-persistent")):
         build_bins()
+    if leg == "peer":
+        rep.d["property"] = args.extra.get("prop", "C14")
+        try:
+            peer_leg(rep, args)
+        except Exception as e:  # noqa
+            import traceback
+            rep.inconclusive("harness error %r %s" % (e, traceback.format_exc()[-700:]))
+        if rep.d["evaluations"] == 0:
+            rep.inconclusive("nothing ran")
+        rep.write(args.out)
+        return
     ncases = args.get_int("cases", 40 if args.thorough() else 6)
     for c in range(ncases):
         try:
